@@ -1,12 +1,27 @@
 #!/bin/bash
-# Run once after a fresh restore, offline. Pre-warms the Go build cache so that the first check is not
-# dominated by a cold build; every check rebuilds its harness from /repo's working tree anyway.
+# Run once after a fresh restore, offline. Pre-warms the Go build cache by building every check exactly
+# the way ./vcheck does (its own generated overlay), so that the first check is not dominated by a cold
+# build. Every check rebuilds its harness from /repo's working tree anyway; a check that does not build
+# here will say so itself (exit 2) when it is run.
 set -u
 export GOFLAGS=-mod=mod GOPROXY=off
 unset GOSUMDB
 cd /verif || exit 1
 mkdir -p .work evidence replays
-cp /repo/go.sum go.sum.repo 2>/dev/null && cat go.sum.repo >> go.sum && sort -u go.sum -o go.sum && rm -f go.sum.repo
-python3 tools/mkoverlay.py /repo .work checks/none > .work/overlay-setup.json || exit 1
-go build -tags verif -overlay .work/overlay-setup.json -o /dev/null ./checks/... || exit 1
-echo setup ok
+work=$(mktemp -d /verif/.work/setup.XXXXXX) || exit 1
+trap 'rm -rf "$work"' EXIT
+go version || exit 1
+fail=0
+for d in checks/*/; do
+  c=$(basename "$d")
+  mkdir -p "$work/$c"
+  if python3 tools/mkoverlay.py /repo "$work/$c" "checks/$c" > "$work/$c/overlay.json" 2> "$work/$c/gen.log" && \
+     go build -tags verif -overlay "$work/$c/overlay.json" -o /dev/null "./checks/$c" 2> "$work/$c/build.log"; then
+    echo "built $c"
+  else
+    echo "WARNING: $c does not build in setup:"; tail -5 "$work/$c/gen.log" "$work/$c/build.log" 2>/dev/null
+    fail=$((fail+1))
+  fi
+done
+echo "setup done ($fail checks did not build)"
+exit 0
